@@ -6,6 +6,10 @@ package main
 import "strings"
 
 func specialReplay(w *World, o *Obligation, q *Query, _ map[string]string) (string, string) {
+	// frame obligations have their own replay vehicle (race detector / purity)
+	if strings.Contains(o.Name, "#frame.") || strings.Contains(o.Name, "#sframe.") {
+		return "", ""
+	}
 	if !strings.HasPrefix(o.Name, "errutil.specialCaseFormat#") && !strings.Contains(o.Name, "formatRecursive#specialcase") {
 		return "", ""
 	}
